@@ -55,7 +55,7 @@ def astar_cases(draw, tier="quick"):
     rao = draw(st.booleans())
     seed = None
     if tb == "random" or rao:
-        seed = draw(st.one_of(st.none(), st.sampled_from([0, 1, 2 ** 31 - 1]), st.integers(0, 10 ** 6)))
+        seed = draw(st.one_of(st.sampled_from([0, 1, 2 ** 31 - 1]), st.integers(0, 10 ** 6)))
     return {"graph": g, "heuristic": draw(st.sampled_from(["zero", "exact", "0.25", "0.5", "0.75"])),
             "tie_breaking": tb, "randomize_action_order": rao, "seed": seed}
 
@@ -64,7 +64,7 @@ def astar_cases(draw, tier="quick"):
 def bfs_cases(draw, tier="quick"):
     g = draw(graph_specs(tier))
     return {"graph": g, "randomize_action_order": draw(st.booleans()),
-            "seed": draw(st.one_of(st.none(), st.integers(0, 10 ** 6)))}
+            "seed": draw(st.integers(0, 10 ** 6))}
 
 
 # ---------------- reference ----------------
